@@ -527,6 +527,14 @@ class FnRewriter:
             if hit == 0:
                 raise ExtractError("lost anchor: `%s` in %s" % (pat, self.name))
 
+    def r11_anyhow(self):
+        toks = self.toks
+        bo, bc = self.body_range()
+        for i in range(bo + 1, bc):
+            if toks[i].kind == "id" and toks[i].text == "anyhow" and toks[i + 1].text == "!" and toks[i + 2].text == "(":
+                self.edit(toks[i].start, toks[self.match[i + 2]].end, "anyhow::vx_error()", "R11")
+                self.rule("R11")
+
     def drop_attrs_in_body(self):
         toks = self.toks
         bo, bc = self.body_range()
@@ -598,6 +606,7 @@ class FnRewriter:
         self.r13_mapcollect()
         self.subst()
         self.replace_calls()
+        self.r11_anyhow()
         self.drop_attrs_in_body()
         self.splice_sections()
         return self.render(self.toks[self.item["start"]].start, self.toks[self.item["end"]].end)
@@ -613,7 +622,11 @@ class FnRewriter:
             if inside:
                 continue
             edits.append((s, e, r, tg))
-        edits.sort(key=lambda x: (x[0], 0 if x[0] == x[1] else 1, x[1]))
+        def prio(tg):
+            if tg.startswith("contract:"):
+                return 0 if ":before" in tg else 2
+            return 1
+        edits.sort(key=lambda x: (x[0], 0 if x[0] == x[1] else 1, prio(x[3]) if x[0] == x[1] else 0, x[1]))
         pieces = []
         cur = lo
         for (s, e, r, tg) in edits:
